@@ -78,3 +78,130 @@ Proof.
         destruct (H1 x bx bx1 Fx Fx1) as (_ & _ & _ & D & _). destruct (b_fp ccmd bx) eqn:P; [rewrite (D eq_refl) in Px1; discriminate|reflexivity].
       * rewrite <- Hu. symmetry. unfold cores. apply up_static. exact SS1.
 Qed.
+
+(** ** single steps *)
+Definition nobody : N -> Prop := fun _ => False.
+
+Lemma md_unapply : forall s i s', c_unapplyBlock s i = Ok s' -> md nobody s s'.
+Proof.
+  intros s i s' H. pose proof (staticInv_unapply _ _ _ _ (eq_refl : staticInv (map (static ccmd) (blocks _ _ s)) s) H) as HS.
+  unfold staticInv in HS. split; [exact HS|].
+  unfold c_unapplyBlock, unapplyBlock in H.
+  destruct (bfind (blocks pstate ccmd s) i) as [bi|]; [|discriminate].
+  destruct (N.eqb i (root pstate ccmd s)); [discriminate|].
+  destruct (negb (b_act ccmd bi)); [discriminate|].
+  destruct (bfind (blocks pstate ccmd s) (b_par ccmd bi)) as [pb|]; [|discriminate].
+  destruct (negb (b_act ccmd pb)); [discriminate|].
+  destruct (child_active ccmd (blocks pstate ccmd s) i); [discriminate|].
+  destruct (N.eqb (napp pstate ccmd s) 0); [discriminate|].
+  inversion H; subst s'; clear H. intros j b b' F F'. cbn [blocks] in F'. rewrite find_upd_any in F' by reflexivity. rewrite F in F'. cbn in F'.
+  inversion F'; subst b'. destruct (N.eqb (b_id ccmd b) i); cbn; repeat split; auto; try lia; try (intro; congruence).
+Qed.
+
+Lemma md_apply_ok : forall s i s', c_applyBlock s i = Ok (s', true) ->
+    md (eq i) s s' /\ (lvl_ge L_FULL i s -> md nobody s s').
+Proof.
+  intros s i s' H. pose proof (staticInv_apply _ _ _ _ _ (eq_refl : staticInv (map (static ccmd) (blocks _ _ s)) s) H) as HS.
+  unfold staticInv in HS.
+  unfold c_applyBlock, applyBlock in H.
+  destruct (bfind (blocks pstate ccmd s) i) as [bi|] eqn:Fi; [|discriminate].
+  destruct (N.eqb i (root pstate ccmd s)); [discriminate|].
+  destruct (bfind (blocks pstate ccmd s) (b_par ccmd bi)) as [pb|]; [|discriminate].
+  destruct (negb (b_act ccmd pb)); [discriminate|].
+  destruct (b_act ccmd bi); [discriminate|].
+  destruct (child_active ccmd (blocks pstate ccmd s) i); [discriminate|].
+  destruct (b_fc ccmd bi); [discriminate|].
+  destruct (is_failed ccmd bi); [discriminate|].
+  destruct (N.ltb (b_lvl ccmd bi) L_CONNECTED); [discriminate|].
+  destruct (gsexec pstate ccmd cexec cunexec [] (b_gs ccmd bi) (pst pstate ccmd s)) as [p' okg].
+  destruct okg; cbn [negb] in H; [|destruct (invalidate_pop pstate ccmd _ i); cbn in H; [inversion H|discriminate]].
+  match type of H with (if ?c then _ else _) = _ => destruct c end; [discriminate|]. inversion H; subst s'; clear H.
+  match goal with |- context [raise_lvl ccmd ?u] => set (up0 := u) end.
+  assert (Hup : N.le up0 L_FULL) by (unfold up0; destruct (valid_upto ccmd pb L_FULL && _); unfold L_FULL, L_MAYBE; lia).
+  assert (G : forall j b b', bfind (blocks pstate ccmd s) j = Some b ->
+              bfind (upd ccmd (blocks pstate ccmd s) i (fun x => set_act ccmd true (raise_lvl ccmd up0 x))) j = Some b' ->
+              b' = (if N.eqb (b_id ccmd b) i then apf up0 b else b)).
+  { intros j b b' F F'. rewrite find_upd_any in F' by reflexivity. rewrite F in F'. cbn in F'. inversion F'. reflexivity. }
+  split.
+  - split; [exact HS|]. intros j b b' F F'. cbn [blocks] in F'. rewrite (G _ _ _ F F').
+    destruct (N.eqb (b_id ccmd b) i) eqn:E.
+    + apply N.eqb_eq in E. rewrite (bfind_id _ _ _ F) in E. pose proof (apf_lvl_ge up0 b).
+      repeat split; auto; try (intro; congruence).
+    + repeat split; auto; try lia; try (intro; congruence).
+  - intros (bf & Fbf & Hl). rewrite Fi in Fbf. inversion Fbf; subst bf.
+    split; [exact HS|]. intros j b b' F F'. cbn [blocks] in F'. rewrite (G _ _ _ F F').
+    destruct (N.eqb (b_id ccmd b) i) eqn:E.
+    + apply N.eqb_eq in E. rewrite (bfind_id _ _ _ F) in E. subst j. rewrite Fi in F. inversion F; subst b.
+      assert (Hsame : b_lvl ccmd (apf up0 bi) = b_lvl ccmd bi).
+      { unfold apf. cbn. destruct (N.ltb (b_lvl ccmd bi) up0) eqn:E1; [apply N.ltb_lt in E1; lia|reflexivity]. }
+      repeat split; auto; try (rewrite Hsame; lia); try (intro; congruence).
+    + repeat split; auto; try lia; try (intro; congruence).
+Qed.
+
+Lemma marks_up : forall (l : list cblk) i t e,
+    (forall y, In y t -> parent (map core l) (b_id _ y) = b_par _ y) ->
+    (forall k, In k e -> exists n, (0 < n)%nat /\ up (map core l) n k = i) ->
+    forall j, In j (marks i e t) -> exists n, (0 < n)%nat /\ up (map core l) n j = i.
+Proof.
+  intros l i t. induction t as [|y t IH]; intros e Ht He j Hj; cbn [marks] in Hj; [destruct Hj|].
+  assert (Ht' : forall y0, In y0 t -> parent (map core l) (b_id ccmd y0) = b_par ccmd y0) by (intros; apply Ht; right; assumption).
+  destruct (N.eqb (b_par ccmd y) i || existsb (N.eqb (b_par ccmd y)) e) eqn:C.
+  - assert (Hy : exists n, (0 < n)%nat /\ up (map core l) n (b_id ccmd y) = i).
+    { apply orb_true_iff in C. destruct C as [C|C].
+      - apply N.eqb_eq in C. exists 1%nat. split; [lia|]. cbn. rewrite (Ht y (or_introl eq_refl)). exact C.
+      - apply existsb_exists in C. destruct C as (k & Hk & Ek). apply N.eqb_eq in Ek. subst k.
+        destruct (He _ Hk) as (n & Hn & Hu). exists (S n). split; [lia|]. cbn. rewrite (Ht y (or_introl eq_refl)). exact Hu. }
+    destruct Hj as [<-|Hj]; [exact Hy|].
+    eapply IH; [exact Ht'| |exact Hj]. intros k Hk. destruct (is_failed ccmd y); [apply He; exact Hk|].
+    destruct Hk as [<-|Hk]; [exact Hy|apply He; exact Hk].
+  - eapply IH; [exact Ht'|exact He|exact Hj].
+Qed.
+
+Lemma md_apply_fail : forall s i s', wf s -> c_applyBlock s i = Ok (s', false) -> md (eq i) s s'.
+Proof.
+  intros s i s' W H. pose proof (staticInv_apply _ _ _ _ _ (eq_refl : staticInv (map (static ccmd) (blocks _ _ s)) s) H) as HS.
+  unfold staticInv in HS. split; [exact HS|].
+  assert (ND : NoDup (ids (blocks _ _ s))).
+  { destruct W as (ND & _). unfold ids. unfold cores in ND. rewrite map_map in ND. exact ND. }
+  unfold c_applyBlock, applyBlock in H.
+  destruct (bfind (blocks pstate ccmd s) i) as [bi|] eqn:Fi; [|discriminate].
+  destruct (N.eqb i (root pstate ccmd s)); [discriminate|].
+  destruct (bfind (blocks pstate ccmd s) (b_par ccmd bi)) as [pb|]; [|discriminate].
+  destruct (negb (b_act ccmd pb)); [discriminate|].
+  destruct (b_act ccmd bi); [discriminate|].
+  destruct (child_active ccmd (blocks pstate ccmd s) i); [discriminate|].
+  destruct (b_fc ccmd bi); [discriminate|].
+  destruct (is_failed ccmd bi) eqn:Hf.
+  { inversion H; subst s'. intros j b b' F F'. rewrite F in F'. inversion F'; subst b'. repeat split; auto; try lia; try (intro; congruence). }
+  destruct (N.ltb (b_lvl ccmd bi) L_CONNECTED); [discriminate|].
+  destruct (gsexec pstate ccmd cexec cunexec [] (b_gs ccmd bi) (pst pstate ccmd s)) as [p' okg].
+  destruct okg; cbn [negb] in H.
+  { match type of H with (if ?c then _ else _) = _ => destruct c end; discriminate. }
+  unfold invalidate_pop in H. cbn [blocks with_pst] in H. rewrite Fi in H.
+  assert (Hfp : b_fp ccmd bi = false).
+  { unfold is_failed in Hf. apply orb_false_iff in Hf. destruct Hf as [Hf _]. apply orb_false_iff in Hf. apply Hf. }
+  rewrite Hfp, Hf in H.
+  destruct (on_active_chain pstate ccmd _ i); [discriminate|].
+  destruct (N.eqb (b_lvl ccmd bi) L_FULL); cbn in H; inversion H; subst s'; clear H.
+  set (l := blocks pstate ccmd s). set (l1 := upd ccmd l i (set_fp ccmd)). set (M := marks i [] l1).
+  assert (ND1 : NoDup (ids l1)) by (unfold l1; rewrite ids_upd by reflexivity; exact ND).
+  intros j b b' F F'. cbn [blocks with_blocks with_pst] in F'. fold l in F, F'. fold l1 in F'.
+  rewrite find_mark_desc in F' by exact ND1. unfold l1 in F' at 2. rewrite find_upd_any in F' by reflexivity. rewrite F in F'. cbn in F'.
+  inversion F'; subst b'; clear F'. fold l1. fold M.
+  assert (HM : existsb (N.eqb j) M = true -> exists x k, i = x /\ fp_new s (with_blocks pstate ccmd (with_pst pstate ccmd s (pst pstate ccmd s)) (mark_desc ccmd i [] l1)) x /\ (0 < k)%nat /\ up (cores s) k j = x).
+  { intros HE. apply existsb_exists in HE. destruct HE as (j' & Hj' & Ej). apply N.eqb_eq in Ej. subst j'.
+    destruct (marks_up l i l1 []) with (j := j) as (n & Hn & Hu); [| |exact Hj'|].
+    - intros y Hy. unfold l1 in Hy. apply in_upd in Hy. destruct Hy as (y0 & Hy0 & ->).
+      assert (Hid : b_id ccmd (if N.eqb (b_id ccmd y0) i then set_fp ccmd y0 else y0) = b_id ccmd y0) by (destruct (N.eqb (b_id ccmd y0) i); reflexivity).
+      assert (Hpa : b_par ccmd (if N.eqb (b_id ccmd y0) i then set_fp ccmd y0 else y0) = b_par ccmd y0) by (destruct (N.eqb (b_id ccmd y0) i); reflexivity).
+      rewrite Hid, Hpa. unfold parent. rewrite cfind_core. pose proof (find_in_blocks _ _ ND Hy0) as Fy. fold l in Fy. rewrite Fy. reflexivity.
+    - intros k [].
+    - exists i, n. split; [reflexivity|]. split; [|split; [exact Hn|exact Hu]]. split.
+      + exists bi. split; [exact Fi|exact Hfp].
+      + cbn [blocks with_blocks]. rewrite find_mark_desc by exact ND1. unfold l1 at 2. rewrite find_upd_any by reflexivity. pose proof Fi as Fi2. fold l in Fi2. rewrite Fi2. cbn.
+        rewrite (bfind_id _ _ _ Fi), N.eqb_refl. eexists. split; [reflexivity|]. destruct (existsb (N.eqb i) (marks i [] l1)); reflexivity. }
+  destruct (existsb (N.eqb j) M) eqn:EM; destruct (N.eqb (b_id ccmd b) i) eqn:E; cbn;
+    repeat split; auto; try lia; try (intro; congruence);
+    try (intros _; right; apply N.eqb_eq in E; rewrite (bfind_id _ _ _ F) in E; symmetry; exact E);
+    try (intros _; right; apply HM; reflexivity).
+Qed.
